@@ -3,7 +3,7 @@ import ast
 import re
 
 from ..pymodel import AnalysisError, FuncInfo, parent
-from ..astutil import (src, is_name, is_const, const_num, call_name, walk_no_nested, strip_docstring,
+from ..astutil import (expand_names, src, is_name, is_const, const_num, call_name, walk_no_nested, strip_docstring,
                        compare_atoms, enclosing_stmt, calls_in, names_in, assignments_to, kwarg)
 from ..cfg import cfg_of, ENTRY, EXIT
 from .. import nullness
@@ -51,7 +51,7 @@ def same_source_rules(ctx, rid, fn):
         body = getattr(blk, 'body', [])
         mdl = [s for s in body if isinstance(s, ast.Assign) and any(is_name(t, 'model') for t in s.targets)]
         rmp = [s for s in body if isinstance(s, ast.Assign) and any(is_name(t, 'reverse_mapping') for t in s.targets)]
-        nv = src(na.value)
+        nv = src(expand_names(fn.node, na.value))
         if 'max_index' in nv:
             kind = 'matrix'
             ok = bool(mdl) and src(mdl[0].value) == arg and bool(rmp) and \
